@@ -1,7 +1,7 @@
 (* C08 - more latency never means more limit (update monotone in the observed RTT). *)
 From Coq Require Import ZArith Reals List.
 From Flocq Require Import Core BinarySingleNaN.
-From GCL Require Import Base.F64 Base.F64Facts Model.Measure Model.Limits Proofs.VegasSafe Proofs.VegasMono Proofs.VegasQueueMono Proofs.VegasMonoFull Proofs.GradSafe Proofs.GradMono.
+From GCL Require Import Base.F64 Base.F64Facts Model.Measure Model.Limits Proofs.VegasSafe Proofs.VegasMono Proofs.VegasQueueMono Proofs.VegasMonoFull Proofs.GradSafe Proofs.GradMono Proofs.GradMixed.
 From GCL Require Proofs.TablesOk.
 
 (* Vegas.  The observed RTT enters the update only through the queue estimate q = ceil(est x (1 - baseline/rtt)) (vegas_queue).
@@ -67,6 +67,24 @@ Theorem C08_gradient_partial g Mx s1 s2 o1 o2 q : GInv g Mx -> gsample_ok s1 -> 
   (R c2 <= R c1)%R /\ (flt c1 (g_est g) = flt c2 (g_est g) -> (R (g_est (o_st o2)) <= R (g_est (o_st o1)))%R).
 Proof. exact (grad_rtt_mono g Mx s1 s2 o1 o2 q). Qed.
 Print Assumptions C08_gradient_partial.
+
+(* The mixed case with a margin: the lower RTT's candidate is at or above the estimate, the higher RTT's below it (and smoothed).  In binary64
+   the smoothed value can exceed the estimate by an ulp (the weight rnd(1 - s) rounds up), so the statement asks for the lower RTT's candidate to
+   be at least estimate + 1; then - as in the two same-side cases - the higher RTT never ends with the larger stored estimate.  Left to the
+   twin-run oracle: est <= c1 < est + 1 with c2 < est. *)
+Theorem C08_gradient_margin g Mx s1 s2 o1 o2 q : GInv g Mx -> gsample_ok s1 -> gsample_ok s2 ->
+  sqrt_q (to_int (g_est g)) = Some q -> (4 <= q <= Mx)%Z ->
+  s_drop s1 = false -> s_drop s2 = false -> s_inflight s2 = s_inflight s1 ->
+  (1 <= s_rtt s1 <= s_rtt s2)%Z ->
+  min_add (g_noload g) (of_int (s_rtt s1)) = g_noload g -> min_add (g_noload g) (of_int (s_rtt s2)) = g_noload g ->
+  flt (of_int (s_inflight s1)) (div (g_est g) two) = false ->
+  grad_step g s1 = Some o1 -> grad_step g s2 = Some o2 -> o_branch o1 <> 1%Z -> o_branch o2 <> 1%Z ->
+  let c1 := grad_cand g q (grad_gradient (g_tol g) (to_int (g_noload g)) (s_rtt s1)) in
+  let c2 := grad_cand g q (grad_gradient (g_tol g) (to_int (g_noload g)) (s_rtt s2)) in
+  (R c1 < R (g_est g) \/ R (g_est g) <= R c2 \/ R (g_est g) + 1 <= R c1)%R ->
+  (R (g_est (o_st o2)) <= R (g_est (o_st o1)))%R.
+Proof. exact (grad_rtt_mono_margin g Mx s1 s2 o1 o2 q). Qed.
+Print Assumptions C08_gradient_margin.
 
 Theorem C08_tables_agree : TablesOk.tables_ok = true /\ TablesOk.functions_ok = true /\ TablesOk.log10f_ok = true.
 Proof. exact (conj TablesOk.tables_agree (conj TablesOk.functions_agree TablesOk.log10f_agrees)). Qed.
